@@ -129,7 +129,7 @@ def check_tree(tree, kw, emitted, document_mode):
         for key, val in attrs:
             if key not in attributes:
                 return ("attribute %r reappeared" % (key,), "attribute")
-            if key in s.attr_val_is_uri:
+            if c09.is_uri_attr(n[2], key):
                 sch = urlscheme.scheme(val)
                 if sch is not None and sch not in protocols:
                     return ("URI attribute %r has scheme %r after re-parsing" % (key, sch), "scheme")
